@@ -68,7 +68,9 @@ def subtype(a, b) -> bool:
 BUILTINS = {
     'abs': F([I], I), 'count': F([IS], I), 'sum': F([IS], I), 'reverse': F([IS], IS),
     'head': F([IS], IS), 'tail': F([IS], IS), 'exists': F([IS], B), 'empty': F([IS], B),
+    'remove': F([IS, I], IS), 'insert-before': F([IS, I, IS], IS),
 }
+ARITY = {'remove': 2, 'insert-before': 3}
 # builtins that work on sequences of any items (function items included)
 POLY = {'count': lambda t: F([t], I), 'reverse': lambda t: F([t], t), 'head': lambda t: F([t], t),
         'tail': lambda t: F([t], t), 'exists': lambda t: F([t], B), 'empty': lambda t: F([t], B)}
@@ -115,10 +117,14 @@ def xp(e) -> str:
     if k == 'fn':
         return 'function(' + ', '.join(f'$v{p}' for p in e[2]) + ') { ' + xp(e[3]) + ' }'
     if k == 'named':
-        return f'{e[1]}#1'
+        # both spellings of a named function reference (EQName with and without prefix)
+        n = ARITY.get(e[1], 1)
+        return f'fn:{e[1]}#{n}' if len(e) > 2 and e[2] else f'{e[1]}#{n}'
     if k == 'call':
         f = xp(e[1]) if e[1][0] == 'var' else f'({xp(e[1])})'
         return f + '(' + ', '.join('?' if a is None else wrap(a) for a in e[2]) + ')'
+    if k == 'spart':
+        return e[1] + '(' + ', '.join('?' if a is None else wrap(a) for a in e[2]) + ')'
     if k == 'par':
         return f'({xp(e[1])})'
     if k == 'smap':
@@ -182,6 +188,13 @@ def proto(e) -> str:
                     out.append('?')
                 else:
                     go(a)
+        elif k == 'spart':
+            out.extend(['spart', e[1], str(len(e[2]))])
+            for a in e[2]:
+                if a is None:
+                    out.append('?')
+                else:
+                    go(a)
         elif k == 'par':
             out.append('par'); go(e[1])
         elif k == 'apply':
@@ -209,6 +222,8 @@ def renumber(e):
             return ('call', go(e[1]), [None if a is None else go(a) for a in e[2]])
         if k == 'apply':
             return ('apply', go(e[1]), [go(m) for m in e[2]])
+        if k == 'spart':
+            return ('spart', e[1], [None if a is None else go(a) for a in e[2]])
         if k in ('lit', 'dlit', 'elit', 'var', 'named'):
             return e
         if k == 'inst':
@@ -227,6 +242,8 @@ def size(e) -> int:
         return 1
     if k == 'fn':
         return 1 + size(e[3])
+    if k == 'spart':
+        return 1 + sum(size(a) for a in e[2])
     if k in ('call', 'apply'):
         return 1 + size(e[1]) + sum(size(a) for a in e[2])
     if k in ('for', 'let'):
@@ -245,6 +262,9 @@ def names(e, acc: set):
         pass
     elif k == 'fn':
         acc.update(e[2]); names(e[3], acc)
+    elif k == 'spart':
+        for a in e[2]:
+            names(a, acc)
     elif k in ('call', 'apply'):
         names(e[1], acc)
         for a in e[2]:
@@ -269,6 +289,8 @@ def wellformed(e) -> bool:
         return False
     if k == 'fn':
         return wellformed(e[3])
+    if k == 'spart':
+        return all(wellformed(a) for a in e[2])
     if k in ('call', 'apply'):
         return wellformed(e[1]) and all(wellformed(a) for a in e[2])
     if k in ('for', 'let'):
@@ -285,6 +307,9 @@ def kinds(e, acc: set):
         return acc
     if k == 'fn':
         kinds(e[3], acc)
+    elif k == 'spart':
+        for a in e[2]:
+            kinds(a, acc)
     elif k in ('call', 'apply'):
         kinds(e[1], acc)
         for a in e[2]:
@@ -548,10 +573,14 @@ class Gen:
                 f = self.gen(t, sc, d - 1)
                 self.tags.add('partial')
                 return ('call', f, [None] * len(args))
+        if len(args) in (2, 3) and r.random() < 0.2:
+            for name in ('remove', 'insert-before'):
+                if subtype(BUILTINS[name], t):
+                    return ('named', name, r.random() < 0.3)
         if len(args) == 1 and r.random() < 0.25:
             for name, bt in sorted(BUILTINS.items(), key=lambda kv: r.random()):
                 if subtype(bt, t):
-                    return ('named', name)
+                    return ('named', name, r.random() < 0.3)
             if is_seq(args[0]) or is_fun(args[0]):
                 for name, mk in sorted(POLY.items(), key=lambda kv: r.random()):
                     if subtype(mk(args[0] if is_seq(args[0]) else S(args[0])), t):
@@ -585,12 +614,19 @@ class Gen:
             f = self.gen(F([st[1]], r.choice([t, el])), sc, d - 1)
             return ('forEach', self.gen(st, sc, d - 1), self.hofwrap(f))
         if k < 0.52:
-            f = self.gen(F([el], B), sc, d - 1)
+            pt = B
+            if self.noise and r.random() < self.noise:
+                self.tags.add('noise:predicate')      # `a single boolean value required`
+                pt = r.choice([I, IS])
+            f = self.gen(F([el], pt), sc, d - 1)
             return ('filter', self.gen(t, sc, d - 1), self.hofwrap(f))
         if k < 0.62:
             st = r.choice([IS, IS, S(F([I], I))]) if d > 2 else IS
             left = r.random() < 0.5
             ft = F([t, st[1]], t) if left else F([st[1], t], t)
+            if self.noise and r.random() < self.noise:
+                self.tags.add('noise:hof-arity')      # `function arity must be 2`
+                ft = F([t], t)
             f = self.gen(ft, sc, d - 1)
             return ('foldL' if left else 'foldR', self.gen(st, sc, d - 1), self.gen(t, sc, d - 1), self.hofwrap(f))
         if k < 0.70:
@@ -711,64 +747,89 @@ class Gen:
     def pdag(self, d):
         """partial-application DAGs: several partials derived from one base function, partials of
         partials, every node used several times in random order (also once per item of a
-        for / for-each), so that a partial is used again AFTER another partial was derived from it"""
+        for / for-each), so that a partial is used again AFTER another partial was derived from it.
+        Base forms: inline function, named reference `remove#2` / `insert-before#3`, static partial
+        application `insert-before(?, 2, ?)` written in the expression."""
         r = self.rng
-        arity = r.choice([2, 3, 3, 4])
-        ps = list(range(10, 10 + arity))
-        if r.random() < 0.6:
+        form = r.random()
+        if form < 0.6:
+            arity = r.choice([2, 3, 3, 4])
+            ps = list(range(10, 10 + arity))
             body = ('var', ps[0])
-            for p in ps[1:]:
-                body = ('cat', body, ('var', p))
-            ret = IS
+            if r.random() < 0.6:
+                for p in ps[1:]:
+                    body = ('cat', body, ('var', p))
+            else:
+                for p in ps[1:]:
+                    body = ('add', ('mul', body, ('lit', 10)), ('var', p))
+            base, types = ('fn', 0, ps, body), ['I'] * arity
+        elif form < 0.8:
+            name = r.choice(['remove', 'insert-before'])
+            base, types = ('named', name, r.random() < 0.3), ['S', 'I', 'S'][:ARITY[name]]
         else:
-            body = ('var', ps[0])
-            for p in ps[1:]:
-                body = ('add', ('mul', body, ('lit', 10)), ('var', p))
-            ret = I
-        base = ('fn', 0, ps, body)
-        nodes = [(0, arity)]              # (variable, number of placeholders)
+            name = r.choice(['remove', 'insert-before', 'insert-before'])
+            k = ARITY[name]
+            keep = sorted(r.sample(range(k), r.randint(1, k)))
+            full = ['S', 'I', 'S'][:k]
+            sargs = [None if i in keep else self.pdag_arg(full[i], None) for i in range(k)]
+            base, types = ('spart', name, sargs), [full[i] for i in keep]
+        nodes = [(0, types)]              # (variable, types of the remaining placeholders)
         binds = [(0, base)]
         nxt = 1
         for _ in range(r.choice([2, 3, 3, 4, 5])):
-            src, k = r.choice(nodes)
-            if r.random() < 0.15:
+            src, ts = r.choice(nodes)
+            k = len(ts)
+            if r.random() < 0.15 or k == 1:
                 fixed = []                # identity partial f(?, ?, …)
             else:
-                fixed = sorted(r.sample(range(k), r.randint(1, max(1, k - 1)))) if k > 1 else []
-            args = [self.lit() if i in fixed else None for i in range(k)]
-            if all(a is not None for a in args):
-                args[r.randrange(k)] = None
+                fixed = sorted(r.sample(range(k), r.randint(1, k - 1)))
+            args = [self.pdag_arg(ts[i], None) if i in fixed else None for i in range(k)]
             binds.append((nxt, ('call', ('var', src), args)))
-            nodes.append((nxt, sum(1 for a in args if a is None)))
+            nodes.append((nxt, [ts[i] for i in range(k) if i not in fixed]))
             nxt += 1
         loopv = nxt
 
-        def use(in_loop):
-            v, k = r.choice(nodes)
-            def arg():
-                return ('var', loopv) if in_loop and r.random() < 0.5 else self.lit()
+        def use(lv):
+            v, ts = r.choice(nodes)
+            k = len(ts)
             if k > 1 and r.random() < 0.3:
                 # partial application on the fly, then the call
                 keep = r.randrange(k)
-                return ('call', ('call', ('var', v), [None if i == keep else arg() for i in range(k)]), [arg()])
-            return ('call', ('var', v), [arg() for _ in range(k)])
+                return ('call', ('call', ('var', v), [None if i == keep else self.pdag_arg(ts[i], lv) for i in range(k)]),
+                        [self.pdag_arg(ts[keep], lv)])
+            return ('call', ('var', v), [self.pdag_arg(t, lv) for t in ts])
 
         uses = []
         for _ in range(r.choice([3, 4, 5, 6])):
             u = r.random()
             if u < 0.6:
-                uses.append(use(False))
+                uses.append(use(None))
             elif u < 0.8:
-                uses.append(('for', loopv, seq(*[self.lit() for _ in range(r.choice([2, 3]))]), use(True)))
+                uses.append(('for', loopv, seq(*[self.lit() for _ in range(r.choice([2, 3]))]), use(loopv)))
             else:
                 uses.append(('forEach', seq(*[self.lit() for _ in range(r.choice([2, 3]))]),
-                             self.hofwrap(('fn', 0, [loopv], use(True)))))
+                             self.hofwrap(('fn', 0, [loopv], use(loopv)))))
         e = uses[0]
         for u in uses[1:]:
             e = ('cat', e, u)
         for v, b in reversed(binds):
             e = ('let', v, b, e)
         self.tags.add('pdag')
+        self.tags.add('pdag:' + base[0])
+        return e
+
+    def pdag_arg(self, t, lv):
+        r = self.rng
+        if t == 'I':
+            if lv is not None and r.random() < 0.5:
+                return ('var', lv)
+            return ('lit', r.choice([0, 1, 2, 3, 5, 7])) if True else self.lit()
+        n = r.choice([0, 1, 2, 3])
+        if n == 0:
+            return ('emp',)
+        e = ('var', lv) if lv is not None and r.random() < 0.3 else self.lit()
+        for _ in range(n - 1):
+            e = ('cat', e, self.lit())
         return e
 
     def selfrec(self, d):
@@ -907,7 +968,21 @@ W_SHARE = ('smap', ('par', ('for', 0, ('cat', ('lit', 1), ('lit', 2)), ('fn', 0,
 W_LEAK = ('let', 0, ('lit', 10), ('cat', ('call', ('fn', 0, [0], ('add', ('var', 0), ('lit', 1))), [('lit', 1)]), ('var', 0)))
 
 
+W_LEX = ('let', 0, ('fn', 0, [], ('var', 1)), ('let', 1, ('lit', 5), ('call', ('var', 0), [])))
+
+
 def detect_cfg(run: Run) -> str:
+    two = detect_cfg2(run)
+    c = run_impl(xp(W_LEX))
+    lex = {'5': '0', 'ERR:XPST0008': '1'}.get(c)
+    if lex is None:
+        run.disagree(Disagreement({'xpath': xp(W_LEX)}, impl=c, model='5|ERR:XPST0008', spec='ERR:XPST0008',
+                                  what='cfg-witness', site='_InlineFunction.__call__'))
+        lex = '1'
+    return two + lex
+
+
+def detect_cfg2(run: Run) -> str:
     """which repairs the live tree contains (read off the canonical witnesses of F16 and F05)"""
     a, b = run_impl(xp(W_SHARE)), run_impl(xp(W_LEAK))
     share = {'2,2': '1', '1,2': '0'}.get(a)
@@ -1002,6 +1077,7 @@ def seq(*xs):
 
 
 CORPUS = [
+    W_LEX,                                                                              # F05c (the only non-closed program)
     W_SHARE,                                                                            # F16
     W_LEAK,                                                                             # F05
     ('foldL', seq(L(1), L(2), L(3)), seq(L(0), L(0)), fn([0, 1], V(0))),                # F16b
@@ -1028,6 +1104,9 @@ CORPUS = [
     ('sortK', seq(L(1), ('elit', 1)), fn([0], ('ite', ('inst', 'decimal', V(0)), L(5), L(1)))),
     ('sortK', seq(('dlit', 2), L(2), ('elit', 1), L(1), ('dlit', 1)),
      fn([0], ('cat', V(0), ('ite', ('inst', 'integer', V(0)), L(1), L(0))))),
+    # an empty left operand ends an arithmetic expression before the right operand is evaluated
+    ('add', ('emp',), ('sub', ('dot',), ('tt',))),
+    ('mul', ('emp',), ('call', L(1), [L(2)])),
     # F16h: predicate result as a one-item sequence
     ('filter', seq(L(1), L(2), L(3)), fn([0], ('let', 1, V(0), ('gt', V(1), L(1))))),
     # arity
@@ -1082,7 +1161,7 @@ def correspond(run: Run, cfg: str) -> None:
 def search(run: Run):
     """systematic small programs: every maker shape x every use shape x arity 0..2 x 2-3 items"""
     sub = Run(PROP, run.tier, run.seed)
-    cfg = getattr(run, 'cfg16', '00')
+    cfg = getattr(run, 'cfg16', '001')
     progs = []
     items = [seq(L(1), L(2)), seq(L(1), L(2), L(3))]
     for xs in items:
@@ -1151,6 +1230,8 @@ def subterms(e):
             yield ('fn', e[1], e[2], b)
         return
     kids = []
+    if k == 'spart':
+        return
     if k in ('call', 'apply'):
         yield e[1]
         for i, a in enumerate(e[2]):
@@ -1180,7 +1261,7 @@ def shrink(d: Disagreement) -> Disagreement:
     if not isinstance(d.case, dict) or 'program' not in d.case:
         return d
     sub = Run(PROP, 'quick', 0)
-    cfg = d.case.get('cfg', '00')
+    cfg = d.case.get('cfg', '001')
     # re-read the program from its protocol text is not needed: shrink on the python tree kept aside
     tree = TREES.get(d.case['program'])
     if tree is None:
@@ -1215,13 +1296,15 @@ def body(run: Run) -> int:
                          'CPython sorted() is stable (the model uses List.mergeSort, proved equal to the reference insertion sort)']
     run.assumptions += ['programs are closed and every lazily pulled sequence position (for-binding, HOF sequence '
                         'arguments) is parenthesised, a variable or a literal: the model is eager',
-                        'sort keys are sequences of integers; collations are not modelled',
+                        'sort keys are sequences of integer-valued numerics (integer/decimal/double); items may be any atomic of the fragment; collations, string and boolean keys are not modelled',
+                        'static partial applications name(?, v, …) only with literal fixed arguments (the code evaluates them at call time)',
                         'the key function of sort is called once per item in the model (the code calls it in every '
                         'comparison): equal by call_repeatable']
     run.prove(['EPV.Props.C16'], ['EPV.Model.Closures', 'EPV.Spec.ClosureSem'])
     cfg = detect_cfg(run)
     run.cfg16 = cfg
-    run.stats.extra['cfg'] = {'share(F16 present)': cfg[0], 'leak(F05 present)': cfg[1]}
+    run.stats.extra['cfg'] = {'share(F16 present)': cfg[0], 'leak(F05 present)': cfg[1],
+                              'lexical(F05c repaired)': cfg[2]}
     try:
         correspond(run, cfg)
     except DriverError as e:
